@@ -28,9 +28,23 @@ func ruleFCShrink(r *Report) {
 		// a counted loop: one side is an induction phi stepped by a constant in a block this If dominates
 		var ind *ssa.Phi
 		var bound ssa.Value
-		if p, ok := bo.X.(*ssa.Phi); ok && isCountedPhi(p) {
+		asInd := func(v ssa.Value) *ssa.Phi {
+			if p, ok := v.(*ssa.Phi); ok && isCountedPhi(p) {
+				return p
+			}
+			// `for range n`: the tested value is counter+1
+			if b2, ok := v.(*ssa.BinOp); ok && b2.Op == token.ADD {
+				if k, isC := intConst(b2.Y); isC && k == 1 {
+					if p, ok := b2.X.(*ssa.Phi); ok && isCountedPhi(p) {
+						return p
+					}
+				}
+			}
+			return nil
+		}
+		if p := asInd(bo.X); p != nil {
 			ind, bound = p, bo.Y
-		} else if p, ok := bo.Y.(*ssa.Phi); ok && isCountedPhi(p) {
+		} else if p := asInd(bo.Y); p != nil {
 			ind, bound = p, bo.X
 		}
 		if ind == nil {
